@@ -62,8 +62,8 @@ CLAIMED.update({
 
 CLAIMED.update({
     "C04": ("dsp", "exploration",
-            "The real dispatcher (own scheduler kept) run on generated corridors (1-9 sidings, 3-270 km, sidings that fit and do not fit, lockout declarations) with 1-10 generated trains in both directions and departure times with deliberate ties; every scenario first runs the real make_est_times per train. The observer hook exposes link_disp_auths / links_blocked / TrainDisp state after every train move and before returning; on EVERY snapshot: disjoint occupancy windows [first-seen arrive_entry, clear_exit] of different trains on a segment and its reverse and on mutually exclusive segments, headway and ordering of followers, front behind the rear of the train ahead, blocked-link table consistent with the trains' own lists; on the returned plans the black-box necessary condition on front-occupancy intervals.",
-            "Trusted: occupancy reference (~120 lines), 1e-6 s / 1e-6 m slack; calibrated against the unchanged tree (650 + 20000 scenarios). The dispatcher serialises opposing traffic completely in this family (probe snapshots_with_opposing_trains_en_route stays 0) - that is its behaviour, reported as such."),
+            "The real dispatcher (own scheduler kept) run on generated corridors (1-9 sidings of 1-3 links per track, 3-270 km, sidings that fit and do not fit, lockout declarations) with 1-10 generated trains in both directions and departure times with deliberate ties; every scenario first runs the real make_est_times per train. The observer hook exposes link_disp_auths / links_blocked / TrainDisp state after every train move and before returning; on EVERY snapshot: disjoint occupancy windows [first-seen arrive_entry, clear_exit] of different trains on a segment and its reverse and on mutually exclusive segments, headway and ordering of followers, front behind the rear of the train ahead, blocked-link table consistent with the trains' own lists; on the returned plans the black-box necessary condition on front-occupancy intervals. Headway is demanded between consecutive users of a physical segment (a train of the opposite direction in between ends the 'following' relation); a stale entry in the blocked-link table that only over-blocks is a reach probe, an entry that under-blocks is a violation.",
+            "Trusted: occupancy reference (~120 lines), 1e-6 s / 1e-6 m slack; calibrated against the unchanged tree (650 + 20000 scenarios). Sidings (and some mains) are built from several links, as in the repository's own networks: the dispatcher lets a train wait only where it arrives on a link leading into a converging switch, so single-link sidings serialise opposing traffic completely (first version of this world; probe snapshots_with_opposing_trains_en_route was 0) - with multi-link sidings about a third of all snapshots have opposing trains on the line. `altsim taconite` runs the same observer on the shipped Taconite network."),
     "C05": ("dsp", "exploration",
             "Same runs plus degenerate ones (a train whose destination cannot be reached must be an error with a cause); Ok => one plan per train, starts on an origin at or after departure, ends on a destination, contiguous, times non-decreasing, never faster than the train's own free-running times (read through the final TrainDisp view against its EstTimeNet), plan = dispatcher's final path; Err => names trains; panics (incl. the repository's debug assertions), unsafe-precondition aborts (std checks live), hangs (200 k observer calls, wall-clock watchdog) are violations.",
             "Trusted: plan reference (~90 lines); memory safety decided at the level 'no out-of-range unchecked access on any explored history'. Miri / ASan not run (DESIGN 6)."),
